@@ -195,10 +195,11 @@ def queryLeaf (c : Cfg) (props : List PropDef) (p : PropDef) (loc : List Nat) (t
           | .ok (r, found, ct, term) =>
             if term == .errIn then .err "token" else
             match oneofPost ops found ct with
-            | .ok () =>
+            | .ok tp =>
               if closeOk term then
-                .ok { m := if p.path.isEmpty then updAt loc (fun _ => r.m) m1
-                           else updAt loc (updPath props p (some (.msg r.m))) m1,
+                let rm := applyPost ops tp r.m
+                .ok { m := if p.path.isEmpty then updAt loc (fun _ => rm) m1
+                           else updAt loc (updPath props p (some (.msg rm))) m1,
                       seen := r.seen.map (fun n => trail ++ [n]) ++ st.seen }
               else .err "token"
             | .err e => .err e
